@@ -56,6 +56,8 @@ type World struct {
 
 	// per-step observers (cleared at the start of every step)
 	Mails []Mail
+	// MailStream is everything defaults.LogMailer has written to its writer (Config.LogMailer); Mails is re-derived from it
+	MailStream string
 	SMS   []SMSMsg
 	Log   []string
 
@@ -86,6 +88,7 @@ func (w *World) Clone() *World {
 		c.Browsers[k] = b.clone()
 	}
 	c.Mails = append([]Mail(nil), w.Mails...)
+	c.MailStream = w.MailStream
 	c.SMS = append([]SMSMsg(nil), w.SMS...)
 	c.Log = append([]string(nil), w.Log...)
 	c.Truth = w.Truth.Clone()
